@@ -1155,10 +1155,10 @@ class AstEval:
             return
 
         func = EvalFunc(arg, self.code_list, self.code_str, self.global_ctx, async_func)
-        await func.eval_defaults(self)
         await func.resolve_nonlocals(self)
         name = func.get_name()
         dec_trig, dec_other, dec_dm = await func.eval_decorators(self)
+        await func.eval_defaults(self)
         self.dec_eval_depth += 1
         for dec_func in dec_other:
             func = await self.call_func(dec_func, None, func)
